@@ -17,6 +17,9 @@ const (
 func (its *MongoCollections) GetNextCollectionNum(ctx iface.OrdaContext) (int32, errors.OrdaError) {
 	opts := options.FindOneAndUpdate()
 	opts.SetUpsert(true)
+	// the number handed out is the incremented one: the default (the document before the update)
+	// gave the first two collections the same number
+	opts.SetReturnDocument(options.After)
 	var update = bson.M{
 		"$inc": bson.M{schema.CounterDocFields.Num: 1},
 	}
